@@ -852,6 +852,7 @@ func main() {
 	rep.Extra["diverging_cases"] = ck.diverged
 	rep.Extra["divergences_rerun_alone"] = ck.rechecked
 	rep.Extra["divergences_not_reproduced"] = ck.flaky
+	rep.Extra["design_stage_s"] = t0.Sub(env.Start).Seconds()
 	rep.Extra["python_stage_s"] = t1.Sub(t0).Seconds()
 	rep.Extra["go_stage_s"] = time.Since(t1).Seconds()
 	rep.Assumptions = []string{
